@@ -71,7 +71,13 @@ impl Ctx {
             // On the deterministic lanes a lost wakeup is caught directly by the probe, so a connection
             // that dies here is a protocol-level liveness matter (C02/C08), reported as a note; on the
             // real scheduler a hang that ends in a timeout is the only visible symptom of a lost wakeup.
-            let mut tag = if self.env.is_det() && matches!(e, ConnectionError::TimedOut | ConnectionError::Reset) { "[C02] " } else { "" };
+            // (likewise a transport-level error raised by the protocol core, e.g. a flow-control
+            // accounting error under duplication/reordering, belongs to C05/C06)
+            let mut tag = match e {
+                ConnectionError::TimedOut | ConnectionError::Reset if self.env.is_det() => "[C02] ",
+                ConnectionError::TransportError(_) | ConnectionError::ConnectionClosed(_) if self.env.is_det() => "[C05] ",
+                _ => "",
+            };
             {
                 // a stream that was finished (explicitly or by dropping its last handle) whose reader
                 // got every byte but never the end of stream is a teardown failure, not a protocol wedge
@@ -117,6 +123,9 @@ impl Ctx {
         if ce.by == self.side {
             match e {
                 ConnectionError::LocallyClosed => self.env.inc("close.seen_locally_closed"),
+                ConnectionError::TransportError(_) | ConnectionError::ConnectionClosed(_) if self.env.is_det() => {
+                    self.env.violate(format!("[C05] {what} on conn {} {}: connection lost with '{e}' before the local close via {}", self.k, side_name(self.side), ce.how))
+                }
                 _ => self.env.violate(format!("{what} on the closing side of conn {} reports '{e}' instead of LocallyClosed (close via {})", self.k, ce.how)),
             }
         } else {
@@ -140,6 +149,10 @@ impl Ctx {
                 // the close never reached this side (lost, or never sent: that is C08's subject); the
                 // operation did complete, which is all C18 asks for
                 ConnectionError::TimedOut | ConnectionError::Reset => self.env.inc(if self.plan.net.lossless() { "close.not_delivered_on_lossless_network" } else { "close.seen_timeout_or_reset_under_loss" }),
+                // a transport-level error raised by the protocol core races with the close: C05/C06's subject
+                ConnectionError::TransportError(_) | ConnectionError::ConnectionClosed(_) if self.env.is_det() => {
+                    self.env.violate(format!("[C05] {what} on conn {} {}: connection lost with '{e}' while the peer was closing via {}", self.k, side_name(self.side), ce.how))
+                }
                 _ => self.env.violate(format!(
                     "{what} on conn {} {}: peer closed via {} (code {}) on a lossless network but the application sees '{e}'",
                     self.k,
